@@ -1,27 +1,26 @@
 #!/bin/bash
 # tools/seed_eval.sh <dir with patch.diff + demo.py> [--no-tests]
-# 1. scratch worktree: demo passes clean, fails with patch, suite passes with patch
-# 2. apply to /repo, run every registered quick check, restore
+# scratch worktree of /repo HEAD: demo passes clean, fails with the patch, suite
+# passes with the patch; then every registered quick check is run against the
+# patched worktree (VERIF_REPO), /repo itself is never touched.
 set -u
 D="$(cd "$1" && pwd)"; NOTEST="${2:-}"
 W=/tmp/seedeval_$$
 git -C /repo worktree add -q --detach $W HEAD || exit 3
 cd $W
-echo "--- clean demo"; PYTHONPATH=$W/src /venv/bin/python $D/demo.py >/dev/null 2>&1; echo "clean demo exit=$?"
+PYTHONPATH=$W/src /venv/bin/python $D/demo.py >/dev/null 2>&1; echo "clean demo exit=$?"
 if ! git apply $D/patch.diff; then echo "PATCH DOES NOT APPLY"; cd /; git -C /repo worktree remove --force $W; exit 4; fi
 PYTHONPATH=$W/src /venv/bin/python $D/demo.py >/dev/null 2>&1; echo "patched demo exit=$?"
 if [ "$NOTEST" != "--no-tests" ]; then
   PYTHONPATH=$W/src timeout 1200 /venv/bin/python -m pytest -q -p no:cacheprovider -n 8 2>&1 | tail -1
 fi
-cd /; git -C /repo worktree remove --force $W
-echo "--- checks on /repo with patch"
-git -C /repo apply $D/patch.diff || { echo "apply to /repo failed"; exit 5; }
+echo "--- checks against the patched tree"
 cd /verif
 for p in $(python3 -c "import json;print(' '.join(c['property_id'] for c in json.load(open('/verif/MANIFEST.json'))['checks']))") ${EXTRA_PROPS:-}; do
-  out=$(./check $p 2>&1 | grep -v conda); rc=$?
+  out=$(VERIF_REPO=$W VERIF_NO_EVIDENCE=1 ./check $p 2>&1 | grep -v conda); rc=$?
   n=$(echo "$out" | grep -c '^VIOLATION')
   e=$(echo "$out" | grep -c '^ANALYSIS-ERROR')
   echo "$p violations=$n errors=$e"
   echo "$out" | grep -A0 '^  src' | head -3
 done
-git -C /repo checkout -- . ; git -C /repo status --short | head -3
+cd /; git -C /repo worktree remove --force $W
